@@ -59,6 +59,9 @@ pub trait KemOps: Sync {
     fn write_exact(&self, kind: KeyKind, b: &[u8], buflen: usize) -> Obs<Vec<u8>>;
     /// from_bytes(to_bytes(v)) == v  by the type's own `==` (public/private keys), by bytes for enc
     fn roundtrip_eq(&self, kind: KeyKind, b: &[u8]) -> Obs<bool>;
+    /// `from_bytes(a) == from_bytes(b)` by the type's own `==` (public and private keys; encapsulated keys
+    /// have no `==` and are compared by their serialization)
+    fn values_equal(&self, kind: KeyKind, a: &[u8], b: &[u8]) -> Obs<bool>;
     fn derive_keypair(&self, ikm: &[u8]) -> Obs<(Vec<u8>, Vec<u8>)>;
     fn gen_keypair(&self, rng: &mut ScriptRng) -> Obs<(Vec<u8>, Vec<u8>)>;
     fn sk_to_pk(&self, sk: &[u8]) -> Obs<Vec<u8>>;
@@ -143,6 +146,15 @@ impl<K: KemT> KemOps for KemAdapter<K> {
                     let w = de::<K::EncappedKey>(&v.to_bytes())?;
                     v.to_bytes() == w.to_bytes()
                 }
+            })
+        })
+    }
+    fn values_equal(&self, kind: KeyKind, a: &[u8], b: &[u8]) -> Obs<bool> {
+        guard(|| {
+            Ok(match kind {
+                KeyKind::Public => de::<K::PublicKey>(a)? == de::<K::PublicKey>(b)?,
+                KeyKind::Private => de::<K::PrivateKey>(a)? == de::<K::PrivateKey>(b)?,
+                KeyKind::Encapped => de::<K::EncappedKey>(a)?.to_bytes() == de::<K::EncappedKey>(b)?.to_bytes(),
             })
         })
     }
